@@ -128,9 +128,21 @@ structure Collected where
   directives : List DirDef := []
   deriving Inhabited
 
+def builtinScalars : List String := ["Int", "Float", "Boolean", "String", "ID"]
+def introspectionTypes : List String :=
+  ["__Schema", "__Directive", "__DirectiveLocation", "__Type", "__Field", "__InputValue", "__EnumValue", "__TypeKind"]
+def isDefaultName (n : String) : Bool := builtinScalars.contains n || introspectionTypes.contains n
+
+/-- kind of a specified type -/
+def builtinKind (n : String) : Kind :=
+  if builtinScalars.contains n then .scalar else if n == "__TypeKind" || n == "__DirectiveLocation" then .enum else .object
+
 def collectStep (acc : Collected) : Def → R Collected
   | .schema s => if acc.schemaDef.isSome then sdlErr else pure { acc with schemaDef := some s }
-  | .type t => if acc.types.any (·.name == t.name) then sdlErr else pure { acc with types := acc.types ++ [t] }
+  | .type t =>
+    if acc.types.any (·.name == t.name) then sdlErr
+    else if isDefaultName t.name then sdlErr       -- a definition may not take the name of a specified type (fix C11-7)
+    else pure { acc with types := acc.types ++ [t] }
   | .directive d =>
     if acc.directives.any (·.name == d.name) then sdlErr else pure { acc with directives := acc.directives ++ [d] }
   | _ => pure acc
@@ -139,10 +151,6 @@ def collectDefinitions (doc : Doc) : R Collected := doc.foldlM collectStep {}
 
 /-! ### names known before anything is built: `_DEFAULT_TYPES_MAP` -/
 
-def builtinScalars : List String := ["Int", "Float", "Boolean", "String", "ID"]
-def introspectionTypes : List String :=
-  ["__Schema", "__Directive", "__DirectiveLocation", "__Type", "__Field", "__InputValue", "__EnumValue", "__TypeKind"]
-def isDefaultName (n : String) : Bool := builtinScalars.contains n || introspectionTypes.contains n
 def specifiedDirectives : List String := ["include", "skip", "deprecated"]
 
 /-- what the builder can see while building definitions: the definitions of the document and the
@@ -630,6 +638,8 @@ def extendSchema (env : Env) (live : Live) (doc : Doc) (additional : List TypeD 
   else do
     -- the new builder sees the built types (`additional_types = {**schema.types, …}`): by name these are
     -- the definitions and the supplied types again, i.e. `env`
+    -- a specified type is never extended, but an extension of a different KIND is still an error (fix C11-7)
+    failIf (texts.any (fun e => isDefaultName e.name && e.kind != builtinKind e.name)) (.lib .ext)
     let types ← live.types.mapM (extendType env texts)
     failIf (hasEagerCycle types) (.lib .sdl)               -- circular-reference guard of extend_type
     let roots ← sexts.foldlM (fun r se => addOps (fun n => isDefaultName n || types.any (·.name == n)) (.lib .ext) r se.ops) live.roots
